@@ -335,6 +335,14 @@ func genRoots(rng *rand.Rand, g *model.Graph, names map[int][]byte, kinds string
 					o = model.Oid{K: "t", I: g.Commits[ci-1].Tree}
 					expr = fmt.Sprintf("{hex:c%d}^{tree}", ci)
 				}
+			case 2:
+				// a ':' that is inside braces does not start a path: ^{/regexp} finds commit ci itself
+				// (its message starts with "c<ci>")
+				if o.K == "c" {
+					ci := o.I
+					o = model.Oid{K: "t", I: g.Commits[ci-1].Tree}
+					expr = fmt.Sprintf("{hex:c%d}^{/^c:?%d}^{tree}", ci, ci)
+				}
 			}
 			// a path component starting with '-' or containing odd characters is fine after ':'
 			explicit = append(explicit, cases.RootSpec{O: o, Walk: true, IsRef: false, Name: expr, Kind: rootKindOf(expr)})
@@ -405,4 +413,38 @@ func genCase(rng *rand.Rand, id string, p genParams) cases.ScanCase {
 	}
 	sc.OmitEmptyTree = rng.Intn(2) == 0
 	return sc
+}
+
+// wideCase: a root tree with `width` sub-directories, each holding one file (git delivers the
+// root first, so all of them are pending at once), plus `files` plain files.
+func wideCase(id string, width, files int) cases.ScanCase {
+	var g model.Graph
+	names := map[int][]byte{}
+	g.Blobs = []int{5, 9}
+	for i := 1; i <= width; i++ {
+		names[i] = []byte(fmt.Sprintf("f%04d", i))
+		g.Trees = append(g.Trees, []model.Entry{{K: "file", To: 1, N: i, NL: 5}})
+	}
+	var root []model.Entry
+	for i := 1; i <= width; i++ {
+		names[width+i] = []byte(fmt.Sprintf("d%04d", i))
+		root = append(root, model.Entry{K: "tree", To: i, N: width + i, NL: 5})
+	}
+	for i := 1; i <= files; i++ {
+		names[2*width+i] = []byte(fmt.Sprintf("x%04d", i))
+		root = append(root, model.Entry{K: "file", To: 2, N: 2*width + i, NL: 5})
+	}
+	g.Trees = append(g.Trees, root)
+	g.Commits = []model.Commit{{Tree: width + 1, Parents: []int{}}}
+	g.Normalize()
+	return cases.ScanCase{ID: id, G: g, Names: names, Style: "full", Family: "wide",
+		Roots: []cases.RootSpec{{O: model.Oid{K: "c", I: 1}, Walk: true, IsRef: true, Name: "refs/heads/wide", Kind: "plain"}}}
+}
+
+func wideCases(prefix string) []cases.ScanCase {
+	var out []cases.ScanCase
+	for _, w := range []int{127, 128, 255, 256, 257, 300, 513} {
+		out = append(out, wideCase(fmt.Sprintf("%s-wide%d", prefix, w), w, w%3))
+	}
+	return out
 }
